@@ -11,7 +11,8 @@ EXPLANATION = (
     "0x200; arm DictId stores zswap32(hold) into checksum and goes to Dict; arm Dict returns NeedDict unless HAVE_DICT; HAVE_DICT is "
     "set only by inflate::set_dictionary and cleared by reset_keep. ATOM in inflate::set_dictionary: wrap != 0 && mode != Dict -> "
     "StreamError; in mode Dict adler32(1, dict) != checksum -> DataError; the dictionary enters the window with update_checksum = "
-    "false; inflate() publishes state.checksum as stream.adler. get_dictionary arithmetic and the actual round trip are not decided.")
+    "false; inflate() publishes state.checksum as stream.adler. get_dictionary arithmetic and the actual round trip are not decided. "
+    "GUARD/get-dictionary: deflateGetDictionary copies min(strstart + lookahead, w_size) bytes ending at the current position, only to a non-null destination. SIB/ref-writes for deflateSetDictionary/inflateSetDictionary.")
 
 CLAIM = dict(
     text="Static agreement of the three encoder sites that must share the FDICT condition, the save/restore pairing in "
@@ -196,4 +197,6 @@ def run(ck):
     inflate_dict(ck, P)
     from . import c06
     c06.get_dictionary_guard(ck, P, "GUARD/get-dictionary")
+    from .. import refwrites
+    ck.floor("SIB/ref-writes", refwrites.check(ck, P, "SIB/ref-writes", only={"deflate.c:deflateSetDictionary", "inflate.c:inflateSetDictionary"}), 10)
     ck.assumptions += ["rustc MIR", "host target; K1"]
